@@ -12,28 +12,40 @@ open GtirbVerif.Adt (CfgNode Label Edge)
 
 def structuralCfi : List String := [".cfi_remember_state", ".cfi_restore_state"]
 
+/-- one directive of `_required_cfi_directives`: accumulators `(results, procedure_directives)`
+and the flag "still in the group that started with `.cfi_startproc`" -/
+def requiredStep (a : List CfiDir × List CfiDir × Bool) (d : CfiDir) : List CfiDir × List CfiDir × Bool :=
+  if d.name == ".cfi_startproc" then (a.1, a.2.1 ++ [d], true)
+  else if d.name == ".cfi_endproc" then
+    -- `append_to = procedure_directives or results`; then the procedure list is cleared
+    if a.2.1.isEmpty then (a.1 ++ [d], [], false) else (a.1, [], false)
+  else if a.2.2 || structuralCfi.contains d.name then
+    if a.2.1.isEmpty then (a.1 ++ [d], a.2.1, a.2.2) else (a.1, a.2.1 ++ [d], a.2.2)
+  else a
+
+/-- one displacement: directives that share their location with `.cfi_startproc` are the
+procedure's initial state and are kept with it -/
+def requiredGroup (acc : List CfiDir × List CfiDir) (grp : List CfiDir) : List CfiDir × List CfiDir :=
+  let r := grp.foldl requiredStep (acc.1, acc.2, false)
+  (r.1, r.2.1)
+
+/-- the directives of a block (grouped by displacement, in order) that must survive its removal -/
+def requiredGroups (groups : List (List CfiDir)) : List CfiDir :=
+  let r := groups.foldl requiredGroup ([], [])
+  r.1 ++ r.2
+
+/-- `sorted(displacement_map.items())` -/
+def sortGroups (mine : List (Nat × List CfiDir)) : List (Nat × List CfiDir) :=
+  mine.foldl (fun acc (k, v) =>
+    let rec ins : List (Nat × List CfiDir) → List (Nat × List CfiDir)
+      | [] => [(k, v)]
+      | (k', v') :: r => if k ≤ k' then (k, v) :: (k', v') :: r else (k', v') :: ins r
+    ins acc) []
+
 /-- `_required_cfi_directives(block)` -/
 def IR.requiredCfi (ir : IR) (blk : Block) : List CfiDir :=
   if !blk.isCode then []
-  else
-    let mine := cfiGet ir.aux.cfi blk.id
-    -- sorted(displacement_map.items())
-    let sorted := mine.foldl (fun acc (k, v) =>
-      let rec ins : List (Nat × List CfiDir) → List (Nat × List CfiDir)
-        | [] => [(k, v)]
-        | (k', v') :: r => if k ≤ k' then (k, v) :: (k', v') :: r else (k', v') :: ins r
-      ins acc) []
-    let ds := sorted.flatMap (·.2)
-    let (results, proc) := ds.foldl (fun (acc : List CfiDir × List CfiDir) d =>
-      let (results, proc) := acc
-      if d.name == ".cfi_startproc" then (results, proc ++ [d])
-      else if d.name == ".cfi_endproc" then
-        -- `append_to = procedure_directives or results`; then the procedure list is cleared
-        if proc.isEmpty then (results ++ [d], []) else (results, [])
-      else if structuralCfi.contains d.name then
-        if proc.isEmpty then (results ++ [d], proc) else (results, proc ++ [d])
-      else (results, proc)) ([], [])
-    results ++ proc
+  else requiredGroups ((sortGroups (cfiGet ir.aux.cfi blk.id)).map (·.2))
 
 def IR.isCodeBlockId (ir : IR) (b : Option Nat) : Bool :=
   match b with
